@@ -5,7 +5,9 @@
      pc     position in the function (0 = path ended)
      d      rsp8: displacement of rsp from its post-prologue value, in 8-byte
             units (push = -1, pop = +1, add/sub $n,%rsp = +-n/8)
-     x      depth of the x87 register stack relative to the start
+     x      displacement of the x87 TOP-of-stack pointer relative to the start (loads +1, pops -1;
+            `ffree` only retags a register and leaves TOP where it is, `ffreep`/`fincstp` -1, `fdecstp` +1):
+            the property is about where the register stack IS, not about which registers are tagged empty
      xu     x is unknown (a call whose return class nobody told us: unhooked tree only)
      al     inside chibicc's builtin_alloca sequence (its rsp arithmetic is the
             storage deliberately obtained with alloca / a VLA: exempt)
